@@ -28,7 +28,7 @@ def run(tier, replay):
     wd = lib.workdir(PID)
     lib.build(dc.GROUP)
     quick = tier == "quick"
-    res, cex, beh = dc.mc("KDynGroupMC", "KDynGroupMC" if quick else "KDynGroupMCt", PID, 4 if quick else 8, 3000)
+    res, cex, beh = dc.mc("KDynGroupMC", "KDynGroupMC" if quick else "KDynGroupMCt", PID, 1, 3000, kinds=(1, 2, 3, 4, 5, 6, 7))
     parts = []
     replayed = 0
     if replay:
